@@ -316,6 +316,55 @@ def shard(ctx):
                     break
             else:
                 ctx.res.distinct.add(("case-convention", len(probes)))
+    # ---- the template-aware console view (default output on CloudFormation-shaped data): every `PropertyPath = <pointer>` printed next to a
+    #      `Value = <v>` must resolve to that value - also for clauses whose left side is a variable / a parameter and whose right side
+    #      lies inside a resource
+    if ctx.mine(2):
+        for rep_ in range(6 if ctx.quick else 120):
+            vals = rng.sample([5, 10, 11, 42, "data-bucket", "logs-bucket", "x", True, 2.5], 4)
+            tdoc = {"Parameters": {"MaxSize": {"Type": "Number", "Default": vals[0]}, "Name": {"Default": vals[1]}},
+                    "Resources": {"bucket": {"Type": "AWS::S3::Bucket", "Properties": {"BucketName": vals[2], "Size": vals[3], "Tags": [{"Key": "k", "Value": vals[0]}]}},
+                                  "topic": {"Type": "AWS::SNS::Topic", "Properties": {"DisplayName": vals[1], "Size": vals[2]}}}}
+            ctext = ("let allowed = %s\nrule a {\n    %%allowed == Resources.bucket.Properties.BucketName\n}\n"
+                     "rule b {\n    Parameters.MaxSize.Default == Resources.bucket.Properties.Size\n    Parameters.Name.Default == Resources.topic.Properties.Size\n}\n"
+                     "rule c {\n    Resources.*.Properties.Size == %s\n}\nrule d {\n    Resources.bucket.Properties.Tags[*].Value == Parameters.Name.Default\n}\n"
+                     "rule e {\n    Parameters.MaxSize.Default in Resources.*.Properties.Size\n}\n") % (gen.glit(vals[1]), gen.glit("never-" + str(rep_)))
+            ttext = json.dumps(tdoc, indent=rng.choice([1, 2, 4]))
+            r = ctx.w.run({"k": "cli", "argv": ["validate", "-r", "{S}/r.guard", "-d", "{S}/t.json"], "files": {"r.guard": ctext, "t.json": ttext}})
+            ctx.res.cases += 1
+            if r.get("r") != "ok":
+                ctx.inconclusive("crash" if core.crash_signature(r) else "console-gadget-error")
+                continue
+            lines_ = r["out"].split("\n")
+            npairs = 0
+            for li, ln_ in enumerate(lines_):
+                m_ = re.match(r"^\s*PropertyPath\s*=\s*(/\S*?)\[L:(\d+),C:(\d+)\]\s*$", ln_)
+                if not m_:
+                    continue
+                val_line = next((x for x in lines_[li + 1:li + 5] if re.match(r"^\s*Value\s*=", x)), None)
+                if val_line is None:
+                    continue
+                try:
+                    shown = json.loads(val_line.split("=", 1)[1].strip())
+                except ValueError:
+                    continue
+                node, okp = tdoc, True
+                for seg in m_.group(1).strip("/").split("/"):
+                    if isinstance(node, dict) and seg in node:
+                        node = node[seg]
+                    elif isinstance(node, list) and seg.isdigit() and int(seg) < len(node):
+                        node = node[int(seg)]
+                    else:
+                        okp = False
+                        break
+                npairs += 1
+                ctx.res.counts["console_path_value_pairs"] += 1
+                if not okp or type(node) is not type(shown) or node != shown:
+                    ctx.violation("console:cfn:path-value", "the console report prints PropertyPath %s with Value %s, the document has %s there" % (
+                        m_.group(1), json.dumps(shown), json.dumps(node) if okp else "nothing"), {"kind": "console", "rules": ctext, "text": ttext})
+                    break
+            if npairs:
+                ctx.res.distinct.add(("console-cfn", min(npairs, 6)))
     n = 30 if ctx.quick else 3000
     for t in range(n):
         doc = gen.gen_doc(rng, scalars=SCALARS, depth=5)
@@ -349,6 +398,24 @@ def shard(ctx):
 
 def replay(case, w):
     found = []
+    if case.get("kind") == "console":
+        r = w.run({"k": "cli", "argv": ["validate", "-r", "{S}/r.guard", "-d", "{S}/t.json"], "files": {"r.guard": case["rules"], "t.json": case["text"]}})
+        doc = json.loads(case["text"])
+        lines_ = r.get("out", "").split("\n")
+        for li, ln_ in enumerate(lines_):
+            m_ = re.match(r"^\s*PropertyPath\s*=\s*(/\S*?)\[L:(\d+),C:(\d+)\]\s*$", ln_)
+            val_line = next((x for x in lines_[li + 1:li + 5] if re.match(r"^\s*Value\s*=", x)), None) if m_ else None
+            if not m_ or val_line is None:
+                continue
+            node = doc
+            try:
+                for seg in m_.group(1).strip("/").split("/"):
+                    node = node[int(seg)] if isinstance(node, list) else node[seg]
+                if node != json.loads(val_line.split("=", 1)[1].strip()):
+                    return False, "path %s printed with another value" % m_.group(1)
+            except (KeyError, IndexError, ValueError, TypeError):
+                return False, "path %s does not resolve" % m_.group(1)
+        return True, "console pairs consistent"
     if case.get("kind") == "caseconv":
         r = w.run({"k": "cli", "argv": ["validate", "-r", "{S}/r.guard", "-d", "{S}/d.json", "--structured", "-S", "none", "-o", "json"],
                    "files": {"r.guard": case["rules"], "d.json": json.dumps(case["doc"])}})
